@@ -16,14 +16,15 @@
   * C08_list_roundtrip_partial      a list of such policies parses back to the same sequence, in order
   * C08_negate_literal_same_meaning `-`(literal n) is written `-n` and read back as the literal −n: a different
                                     tree with the same value (why the full statement speaks of meaning, not trees)
-  * C08_marshal_negative_receiver_counterexample   `Long(-5).Access("foo")` is written `-5.foo`, which is rejected
-  * C08_marshal_negated_int_receiver_counterexample `Negate(Long(5).Access("foo"))` likewise
+  * regression examples for the two repaired defects: `Long(-5).Access("foo")` is written `(-5).foo`
+    (`negative-literal-receiver`) and `Negate(Long(5).Access("foo"))` is written `-5.foo` and read back
+    (`negated-int-receiver`); both trees are inside the fragment now
 
   THE FRAGMENT `Text.policyOKGo` / `Text.inFragGo` (decidable; CedarGo/Model/Text/Fragment.lean): the C07 fragment
   (bool/long/string/entity literals, variables, all unary and binary operators and methods, if-then-else, attribute
   access, has, is, is-in, sets, records, extension calls; any annotations with distinct keys, every scope form, any
-  conditions) MINUS negative-literal receivers, `-`(non-negative literal) and `-`(integer-headed postfix chain).
-  NOT covered by theorems (covered by the direct oracle on the Go side only): `like`; strings with U+FFFD;
+  conditions) MINUS `-`(non-negative literal), which is written `-5` and read back as the literal −5.
+  NOT covered by theorems (covered by the direct oracle on the Go side only): `like`;
   NodeValues holding sets, records or extension values (their printing order / key quoting is not modelled — and
   has the known defects listed in known_findings.d/C08.json); PolicySet order (a property of the container: C20).
 -/
@@ -79,16 +80,30 @@ theorem C08_negate_literal_same_meaning (n : Int) (h0 : 0 ≤ n) (h1 : n ≤ 922
       have h3 : (-n).natAbs = n.toNat := by omega
       simp [marshalExpr, marshalLit, goWrap, goPrec, h1', h3, hpos]
 
-/-- the property fails in the code: a negative literal receiver is written without parentheses -/
-theorem C08_marshal_negative_receiver_counterexample :
-    ∃ p : Policy, pieceText (marshalPolicy p) = "permit ( principal, action, resource )\nwhen { -5.foo };" ∧
-      errKind (parsePolicy (pieceToks (marshalPolicy p))) = some .exact :=
-  ⟨{ effect := .permit, conditions := [(true, .access (.lit (.long (-5))) "foo")] }, by decide +kernel, by decide +kernel⟩
+/-- regression (repaired defect `negative-literal-receiver`): a negative literal receiver is written in
+    parentheses, and the text is read back to the same tree -/
+example :
+    let p : Policy := { effect := .permit, conditions := [(true, .access (.lit (.long (-5))) "foo")] }
+    policyOKGo p = true ∧ pieceText (marshalPolicy p) = "permit ( principal, action, resource )\nwhen { (-5).foo };" ∧
+      parsePolicy (pieceToks (marshalPolicy p)) = some (.ok p) :=
+  ⟨by decide +kernel, by decide +kernel, C08_marshal_parses_partial _ (by decide +kernel)⟩
 
-/-- … and so is the negation of an integer-headed postfix chain (same text, different tree) -/
-theorem C08_marshal_negated_int_receiver_counterexample :
-    ∃ p : Policy, pieceText (marshalPolicy p) = "permit ( principal, action, resource )\nwhen { -5.foo };" ∧
-      errKind (parsePolicy (pieceToks (marshalPolicy p))) = some .exact :=
-  ⟨{ effect := .permit, conditions := [(true, .unop .neg (.access (.lit (.long 5)) "foo"))] }, by decide +kernel, by decide +kernel⟩
+/-- regression (repaired defect `negated-int-receiver`): the negation of an integer-headed postfix chain is written
+    `-5.foo` (a different text from the one above) and read back to the same tree -/
+example :
+    let p : Policy := { effect := .permit, conditions := [(true, .unop .neg (.access (.lit (.long 5)) "foo"))] }
+    policyOKGo p = true ∧ pieceText (marshalPolicy p) = "permit ( principal, action, resource )\nwhen { -5.foo };" ∧
+      parsePolicy (pieceToks (marshalPolicy p)) = some (.ok p) :=
+  ⟨by decide +kernel, by decide +kernel, C08_marshal_parses_partial _ (by decide +kernel)⟩
+
+/-- every receiver position parenthesises a negative literal: `.attr`, `["attr"]`, isEmpty, contains…, getTag/hasTag,
+    extension methods — and nothing else does (arguments, operands of infix operators, set elements are parenthesised
+    by their precedence level only) -/
+example : pieceText (marshalExpr (.binop .contains (.unop .isEmpty (.access (.lit (.long (-1))) "a b")) (.lit (.long (-2))))) =
+      "(-1)[\"a b\"].isEmpty().contains(-2)" ∧
+    pieceText (marshalExpr (.call "isInRange" [.lit (.long (-1)), .set [.lit (.long (-3))]])) = "(-1).isInRange([-3])" ∧
+    pieceText (marshalExpr (.binop .getTag (.lit (.long (-1))) (.binop .mul (.lit (.long (-2))) (.lit (.long (-3)))))) =
+      "(-1).getTag((-2 * -3))" := by
+  decide +kernel
 
 end CedarGo
